@@ -728,6 +728,78 @@ func init() {
 		l.p("/-- `worker.run`: between a copy (`Journals.Write`) and `saveState` only error paths leave the loop: a copy that succeeded is")
 		l.p("always followed by a save of the position, also when the pipe is being closed -/")
 		l.p("def workerSavesPositionAfterEveryCopy : Bool := %s", leanBool(savesAfterCopy))
+		// ppipe.saveState: the positions file is written inside the critical section of the pipe's lock that took the snapshot
+		// of the position map — the call that reaches the file write (savePipeInfo, or any helper of pkg/pipe, followed to
+		// depth 2) lies after `….lock.Lock()` and before the final `….lock.Unlock()`, and an Unlock in front of it belongs
+		// to a branch that returns. Otherwise two workers of one pipe can write their snapshots in the other order.
+		saveUnderLock := false
+		if fd := funcDecl(ppf, "ppipe", "saveState"); fd == nil {
+			problem("pipe.ppipe.saveState not found")
+		} else {
+			var lockPos, writePos, lastUnlock token.Pos
+			ast.Inspect(fd.Body, func(n ast.Node) bool {
+				ce, ok := n.(*ast.CallExpr)
+				if !ok {
+					return true
+				}
+				sel := c07Sel(ce.Fun)
+				switch {
+				case strings.HasSuffix(sel, "lock.Lock") && lockPos == token.NoPos:
+					lockPos = ce.Pos()
+				case strings.HasSuffix(sel, "lock.Unlock"):
+					if ce.Pos() > lastUnlock {
+						lastUnlock = ce.Pos()
+					}
+				default:
+					if writePos == token.NoPos {
+						writes := strings.HasSuffix(sel, "WriteFile")
+						if !writes {
+							if cal := c07Callee(pfuncs, ce); cal != nil && cal != fd && c07Reaches(pfuncs, cal, "WriteFile", 2) {
+								writes = true
+							}
+						}
+						if writes {
+							writePos = ce.Pos()
+						}
+					}
+				}
+				return true
+			})
+			if writePos == token.NoPos {
+				problem("pipe.ppipe.saveState: no call that writes the positions file found")
+			}
+			early := false // an Unlock in front of the write that is not followed by a return in its block
+			ast.Inspect(fd.Body, func(n ast.Node) bool {
+				bl, ok := n.(*ast.BlockStmt)
+				if !ok {
+					return true
+				}
+				for i, st := range bl.List {
+					es, ok := st.(*ast.ExprStmt)
+					if !ok {
+						continue
+					}
+					ce, ok := es.X.(*ast.CallExpr)
+					if !ok || !strings.HasSuffix(c07Sel(ce.Fun), "lock.Unlock") || ce.Pos() > writePos {
+						continue
+					}
+					ret := false
+					for _, later := range bl.List[i+1:] {
+						if _, ok := later.(*ast.ReturnStmt); ok {
+							ret = true
+						}
+					}
+					if !ret {
+						early = true
+					}
+				}
+				return true
+			})
+			saveUnderLock = lockPos != token.NoPos && writePos != token.NoPos && lockPos < writePos && writePos < lastUnlock && !early
+		}
+		l.p("/-- `ppipe.saveState` writes the positions file while it holds the pipe's lock under which the position map was changed and")
+		l.p("serialised: position files reach the disk in the order their snapshots are taken (the model's `savePipeInfo` is one step) -/")
+		l.p("def positionsFileWrittenUnderPipeLock : Bool := %s", leanBool(saveUnderLock))
 		npp := funcDecl(ppf, "", "newPPipe")
 		if npp == nil {
 			problem("pipe.newPPipe not found")
